@@ -30,6 +30,7 @@ def run_step(M, prog, case):
     conn_kw = case.get('conn', {})
     actor = case.get('actor', spec.nicks[0])
     conn = w.add_conn(actor, **conn_kw) if conn_kw.get('registered', True) else w.add_conn(conn_kw.get('nick'), **{k: v for k, v in conn_kw.items() if k != 'nick'})
+    if case.get('conn_setup'): SETUPS[case['conn_setup']](M, w, case, conn)
     ctx = StepCtx()
     ctx.M, ctx.w, ctx.conn, ctx.case, ctx.actor, ctx.prog = M, w, conn, case, actor, prog
     ctx.pre = Snapshot(prog, w.vs)
@@ -38,11 +39,34 @@ def run_step(M, prog, case):
     line = case['line']
     if callable(line): line = line(M, w)
     ctx.line = line
+    ctx.conns = {actor: conn}
     try:
+        # optional prelude: earlier lines by this or other registered connections (their effects are part of the pre-state)
+        for who, pl in case.get('prelude', []):
+            if who not in ctx.conns: ctx.conns[who] = w.add_conn(who)
+            if isinstance(pl, (tuple, list)) and pl[0] == 'call':
+                saved = ctx.conn; ctx.conn = ctx.conns[who]
+                CALLS[pl[1]](ctx)
+                ctx.conn = saved
+            else:
+                w.process_line(ctx.conns[who], pl)
+        for it in case.get('pre_items', []):
+            w.run_to_completion(w.start_process(conn, item=it))
+        if case.get('prelude') or case.get('pre_items'):
+            ctx.pre0 = ctx.pre
+            ctx.pre = Snapshot(prog, w.vs)
+            for ch in w.queues.values(): del ch.q[:]
+            del conn['src'].written[:]
         if case.get('item'):
             ctx.result = w.run_to_completion(w.start_process(conn, item=case['item']))
+        elif case.get('call'):
+            ctx.result = CALLS[case['call']](ctx)
         else:
             ctx.result = w.process_line(conn, line)
+        for post_call in case.get('then', []):
+            ctx.then = getattr(ctx, 'then', [])
+            ctx.mid = Snapshot(prog, w.vs)
+            ctx.then.append(CALLS[post_call](ctx))
     except Panic as e:
         ctx.outcome = 'panic'; ctx.panic = e
         ctx.result = None
@@ -54,6 +78,19 @@ def run_step(M, prog, case):
 
 SETUPS = {}
 JUDGES = {}
+
+def setup(name):
+    def deco(f):
+        SETUPS[name] = f; return f
+    return deco
+
+CALLS = {}
+
+def call(name):
+    def deco(f):
+        CALLS[name] = f; return f
+    return deco
+
 
 def judge(name):
     def deco(f):
